@@ -25,6 +25,7 @@
 #include <unordered_set>
 #include <utility>
 #include <iterator>
+#include <limits>
 #include <vector>
 
 namespace
@@ -1199,9 +1200,56 @@ void fault_histories()
   vf::count("tree/fault/links-verified", r.links);
 }
 
+// ---- values whose own == is not reflexive (a NaN): comparison "agrees with the same computation on a plain recursive
+// model" - == is the conjunction of the value comparisons, != its negation - also when a tree is compared with ITSELF
+void nan_trees()
+{
+  std::string const e = "tree<double>/non-reflexive-values";
+  if (!vf::entry_enabled(e) || !vf::mine(vf::hash_str(e)))
+    return;
+  vf::set_entry(e);
+  if (!vf::begin_case("trees of doubles with a NaN at the root / in a child / in a grandchild / nowhere: all pairs incl. self"))
+    return;
+  using TD = fcppt::container::tree::object<double>;
+  double const nan = std::numeric_limits<double>::quiet_NaN();
+  auto const make = [nan](int where) {
+    TD t(where == 0 ? nan : 1.0);
+    t.push_back(where == 1 ? nan : 2.0);
+    t.push_back(3.0);
+    t.front().get_unsafe().get().push_back(where == 2 ? nan : 4.0);
+    return t;
+  };
+  std::vector<TD> trees;
+  for (int where = 0; where < 4; ++where)
+  {
+    trees.push_back(make(where));
+    trees.push_back(make(where)); // an equal-looking second object
+  }
+  for (std::size_t i = 0; i < trees.size(); ++i)
+    for (std::size_t j = 0; j < trees.size(); ++j)
+    {
+      vf::note_distinct(vf::hash_mix(vf::hash_str(e), i * 16 + j));
+      // model: equal iff same shape (all are) and every pair of corresponding values compares equal: a NaN never does
+      bool const has_nan_i = i / 2 != 3, has_nan_j = j / 2 != 3;
+      bool const want_eq = !has_nan_i && !has_nan_j; // all non-NaN values coincide; a NaN position makes the pair unequal
+      bool const same_place_nan = has_nan_i && has_nan_j && i / 2 == j / 2;
+      (void)same_place_nan;
+      bool const eq = trees[i] == trees[j], ne = trees[i] != trees[j];
+      VF_COUNT("tree/nan/comparisons");
+      if (i == j)
+        VF_COUNT("tree/nan/self-comparisons");
+      if (eq != want_eq || ne == want_eq)
+        vf::violation("tree<double>/comparison/non-reflexive-values", "mismatch",
+                      "trees #" + std::to_string(i) + " and #" + std::to_string(j) + (i == j ? " (the same object)" : "") + ": == " + (eq ? "true" : "false") + ", != " + (ne ? "true" : "false") +
+                          ", the recursive model gives == " + (want_eq ? "true" : "false"));
+    }
+  vf::add_evals(trees.size() * trees.size());
+}
+
 void body()
 {
   fault_histories();
+  nan_trees();
   for (char const *b :
        {"tree/op/push_back-value", "tree/op/push_front-value", "tree/op/push_back-subtree", "tree/op/push_front-subtree",
         "tree/op/insert-value", "tree/op/insert-subtree", "tree/op/copy-ctor-to-root", "tree/op/copy-ctor-to-child",
